@@ -103,11 +103,18 @@ def anchors():
 def sh(cmd, cwd=None, env=None, timeout=1800):
     e = dict(os.environ); e.update({"CARGO_NET_OFFLINE": "true", "CARGO_TERM_COLOR": "never"})
     if env: e.update(env)
+    # own session, so that a mutant that loops for ever (a test binary spinning on all cores) can be killed with its whole group
+    p = subprocess.Popen(cmd, shell=isinstance(cmd, str), cwd=cwd, env=e, stdout=subprocess.PIPE, stderr=subprocess.STDOUT, start_new_session=True)
     try:
-        p = subprocess.run(cmd, shell=isinstance(cmd, str), cwd=cwd, env=e, stdout=subprocess.PIPE, stderr=subprocess.STDOUT, timeout=timeout)
-        return p.returncode, p.stdout.decode("utf-8", "replace")
-    except subprocess.TimeoutExpired as ex:
-        return 124, (ex.stdout or b"").decode("utf-8", "replace") + "\nTIMEOUT"
+        out, _ = p.communicate(timeout=timeout)
+        return p.returncode, out.decode("utf-8", "replace")
+    except subprocess.TimeoutExpired:
+        try:
+            os.killpg(p.pid, 9)
+        except OSError:
+            pass
+        out, _ = p.communicate()
+        return 124, (out or b"").decode("utf-8", "replace") + "\nTIMEOUT"
 
 
 def apply_mut(wt, m):
@@ -134,16 +141,18 @@ def worker(i, queue, out_path, lock, amap):
             apply_mut(wt, m)
         except AssertionError:
             rec["status"] = "stale"; emit(out_path, lock, rec); continue
-        rc, out = sh(["cargo", "test", "--offline", "--lib"], cwd=wt, env=env, timeout=900)
+        rc, out = sh(["cargo", "test", "--offline", "--lib"], cwd=wt, env=env, timeout=240)
         failed = set(re.findall(r"^test (\S+) \.\.\. FAILED", out, re.M))
         mres = re.search(r"test result: \w+\. (\d+) passed; (\d+) failed", out)
         if not mres:
-            rec["status"] = "nocompile" if "error" in out else "test-run-broken"
+            rec["status"] = "killed-by-tests" if rc == 124 else "nocompile" if "error" in out else "test-run-broken"
         elif failed != ALWAYS_FAIL or int(mres.group(1)) != 276:
             rec["status"] = "killed-by-tests"; rec["failed"] = sorted(failed - ALWAYS_FAIL)[:5]
         else:
             rec["status"] = "undetected"; rec["checks"] = {}
-            for pid in amap.get(m["file"], []):
+            # the anchored properties first, then four cheap checks of properties that often see a change from another
+            # angle (content size -> C15, streams -> C18, create's output -> C05, C01)
+            for pid in amap.get(m["file"], []) + [x for x in ("C15", "C18", "C05", "C01") if x not in amap.get(m["file"], [])]:
                 crc, cout = sh(["./check", pid, "--tier", "quick"], cwd=VERIF,
                                env={"VERIF_REPO": wt, "VERIF_CACHE": cache, "VERIF_EVIDENCE": cache + "/evidence"}, timeout=1500)
                 v = [l for l in cout.split("\n") if l.startswith("VIOLATION")]
